@@ -503,6 +503,37 @@ class Verifier(Engine):
         # only meaningful as the argument of all()/any(); any other use is rejected where it is consumed
         return Py("genexp", (n, dict(self.st.loc)))
 
+    def ev_SetComp(self, n):
+        if len(n.generators) != 1 or n.generators[0].ifs:
+            raise Unsupported("complex set comprehension")
+        gen = n.generators[0]
+        seqv = self.as_seq(self.ev_v(gen.iter))
+        h = getattr(self, "_assign_hint", None)
+        # evaluate the element for a symbolic index to learn its type
+        i = self.fresh("sc", z3.IntSort())
+        saved = dict(self.st.loc)
+        self.quant_depth += 1
+        self.bound_stack.append(i)
+        try:
+            self.bind_target(gen.target, self.seq_at(seqv, i))
+            elt = self.ev_v(n.elt)
+        finally:
+            self.quant_depth -= 1
+            self.bound_stack.pop()
+            self.st.loc = saved
+        t_ = h if (h is not None and h.kind == "set") else Ty("set", elt.ty)
+        res = self.new_set(t_)
+        key, srt = self.set_key(t_)
+        mem = self.fresh("scmem", srt.range())
+        x = self.fresh("x", sort_of(t_.elem))
+        n_ = self.seq_len(seqv)
+        self.assume(z3.ForAll([x], z3.Select(mem, x) == z3.Exists([i], AND(i >= 0, i < n_, elt.t == x))))
+        self.hset(key, z3.Store(self.hget(key, srt), res.t, mem))
+        c = self.fresh("card", z3.IntSort())
+        self.assume(c >= 0)
+        self.set_card(res, c)
+        return res
+
     def ev_GeneratorExp(self, n):
         return Py("genexp", (n, dict(self.st.loc)))
 
@@ -710,7 +741,8 @@ class Verifier(Engine):
             if v.ty.kind in ("int", "bool", "enum"):
                 return self.coerce(v, T.INT)
             if v.ty.kind == "str":
-                self.oblige("ValueError: int() of a non-numeric string", "safety", z3.StrToInt(v.t) >= 0)
+                digits = z3.Plus(z3.Range("0", "9"))
+                self.oblige("ValueError: int() of a non-numeric string", "safety", z3.InRe(v.t, digits))
                 return V(T.INT, z3.StrToInt(v.t))
             if v.ty.kind == "float":
                 f = z3.Function("int_of_float", sort_of(T.FLOAT), z3.IntSort())
@@ -1022,7 +1054,11 @@ class Verifier(Engine):
                 return a.ty.kind
             return "*" if isinstance(a, tuple) else "py"
         sig = "%s(%s)" % (dotted, ",".join(kind_of(a) for a in args))
-        con = self.reg.contract_for("ext", sig) or self.reg.contract_for("ext", dotted)
+        cur = self.frame.contract
+        con = None
+        if cur is not None and dotted in cur.prefer_ext:
+            con = self.reg.contract_for("ext", cur.prefer_ext[dotted])
+        con = con or self.reg.contract_for("ext", sig) or self.reg.contract_for("ext", dotted)
         if con is None:
             raise Unsupported("no model / contract for external call %s" % sig)
         return self.apply_contract(con, selfv, args, kwargs)
@@ -1449,6 +1485,8 @@ class Verifier(Engine):
             return V(T.BOOL, self.unchanged(key, self.loop_heap, [self.ev_v(x) for x in a[1:]]))
         if name == "seq_len":
             return V(T.INT, self.seq_len(self.ev_v(a[0])))
+        if name == "str_to_int":
+            return V(T.INT, z3.StrToInt(self.ev_v(a[0]).t))
         if name == "int_str":
             return V(T.STR, int_to_str(self.ev_v(a[0]).t))
         if name == "join":
